@@ -24,6 +24,8 @@ TNext ==
         /\ want' = Effect(Ev.eff, obs) /\ ph' = "called")
     \/ (Is("Op") /\ ph = "base" /\ Ev.ret = 1 /\ Ev.fired = 1 /\ Ev.k > 0 /\ Ev.h \in {"null", "same", "na"}
         /\ (Ev.warm = 1 => Ev.leak = 0) /\ Ev.leak >= 0
+        \* a pool the caller passed in reports as many schedulers as before (the reference taken was given back)
+        /\ ("nsb" \in DOMAIN Ev => Ev.nsa = Ev.nsb)
         /\ CallFail(Ev.eff) /\ want' = obs /\ ph' = "called")
     \* what the API shows after the call is what the specification predicts
     \/ (Is("Snap") /\ Ev.tag \in {"after", "retry"} /\ ph = "called" /\ SnapOf(Ev) = want /\ UNCHANGED <<hvars, want>> /\ ph' = "idle")
